@@ -3,7 +3,7 @@ import TPV.Model.UserFun
 open TPV TPV.Proto TPV.UserFun
 
 /-! line protocol of C13:  `run <nops> <op>…` / `runold <nops> <op>…`  →  `<out> # <digest> ; …`
-    ops: nd <dict> | wf fn <names> <dflts> | wc fn | we fn <names> <udict|-1> | rw r | ca r <dict> |
+    ops: nd <dict> | wf fn <names> <dflts> | wc fn | we fn <names> <udict|-1> | rw r | ca r <dict> | cv r <dict> <lens> |
          pe r <dict> | sd r <dict> | rd r <names> | dc r        (lists are length-prefixed)
     `align <names> <dflts>`, `call <names> <defaults-dict> <env-dict>` evaluate single definitions. -/
 
@@ -25,6 +25,10 @@ def pOp (ud : List Nat) : P (Option Op) := do
       | none => pure none
   | "rw" => do let r ← nat; pure (some (.rewrap r))
   | "ca" => do let r ← nat; let e ← pDict; pure (some (.call r e))
+  | "cv" => do
+    let r ← nat; let e ← pDict
+    let lens ← many (do let v ← int; let n ← nat; pure (v, n))
+    pure (some (.callVec r e lens))
   | "pe" => do let r ← nat; let e ← pDict; pure (some (.partialEval r e))
   | "sd" => do let r ← nat; let e ← pDict; pure (some (.setDefault r e))
   | "rd" => do let r ← nat; let ks ← pNames; pure (some (.removeDefault r ks))
@@ -44,6 +48,7 @@ def showNames (l : List String) : String := "[" ++ ",".intercalate l ++ "]"
 
 def showErr : Err → String
   | .missingArg => "e:missing" | .keyError => "e:keyerror" | .indexError => "e:index" | .badRef => "e:badref"
+  | .valueError => "e:valueerror"
 
 def showCanon (params : List String) (kw : Dict) : String :=
   ",".intercalate ((canon params kw).map fun pv =>
@@ -53,17 +58,34 @@ def showCanon (params : List String) (kw : Dict) : String :=
 
 /-- the wrapper an op addresses (to print a value in the declaration order of its parameters) -/
 def opRef : Op → Option Nat
-  | .call r _ => some r | .partialEval r _ => some r | _ => none
+  | .call r _ => some r | .partialEval r _ => some r | .callVec r _ _ => some r | _ => none
+
+def showArg : Arg → String
+  | .row v => s!"r{v}"
+  | .whole b => match b with
+    | [] => "w?x0"
+    | v :: _ => s!"w{v / 1000}x{b.length}"
+
+/-- one invocation, arguments in the declaration order of the parameters -/
+def showInvocation (params : List String) (args : List (String × Arg)) : String :=
+  ",".intercalate (params.map fun p =>
+    match args.lookup p with
+    | some a => s!"{p}={showArg a}"
+    | none => s!"{p}=?")
 
 def showOut (h : Heap) (op : Op) (ud : List Nat) : Out → String
   | .unit => "u"
-  | .dict c => s!"U{ud.length}" ++ (if c = c then "" else "")
+  | .dict _ => s!"U{ud.length}"
   | .wrapper r => s!"w{r}"
   | .value fn kw =>
     match (opRef op).bind (h.ws[·]?) with
     | some u => s!"v{fn}/{kw.length}({showCanon u.params kw})"
     | none => s!"v{fn}/{kw.length}(?)"
   | .const fn => s!"k{fn}"
+  | .batch fn rows =>
+    match (opRef op).bind (h.ws[·]?) with
+    | some u => s!"b{fn}/{rows.length}[" ++ "|".intercalate (rows.map (showInvocation u.params)) ++ "]"
+    | none => s!"b{fn}/{rows.length}[?]"
   | .err e => showErr e
 
 def showWrapper (h : Heap) (i : Nat) (u : UF) : String :=
